@@ -1,8 +1,158 @@
-import BrushVerif.Model.Wire
-/-! Driver for C10 (stub until the property's model exists). -/
-namespace BrushVerif.Drv.C10
-open BrushVerif.Wire
+import BrushVerif.Model.Fd
+import BrushVerif.Model.HereDoc
+import BrushVerif.Spec.FdFlat
+/-!
+Driver for C10.
 
-def handle (_toks : List Str) : Str := "unimplemented".toList
+* `C10 R <nc> <cmd>…` — a script of one command per line (prefix encoding, see `parseCmd`);
+  response `M rc=0 out=… err=… rep=… files=… | S rc=0 out=… …` (brush model, flat bash reference),
+  or `HAZARD` in place of a side whose file contents depend on the length of an error message.
+* `C10 H <dash> <esc tag word> <esc text>` — here-document scanning of `text` (what follows the
+  line holding `<<tag`): `ok <expand 0|1> <esc body> <esc rest>` or `unterminated`.
+* `C10 E <esc body> <esc value of x>` — here-document expansion of a body (unquoted delimiter).
+-/
+namespace BrushVerif.Drv.C10
+open BrushVerif.Wire BrushVerif.Fd
+
+def splitComma (s : Str) : List Str := splitOnChar ',' s
+
+def parseOptFd (s : Str) : Option (Option Fd) :=
+  if s = ['-'] then some none else (parseNat? s).map some
+
+def parseKind : Str → Option Kind
+  | ['r'] => some .read | ['w'] => some .write | ['a'] => some .append
+  | ['x'] => some .readWrite | ['c'] => some .clobber | _ => none
+
+def parseRedir (t : Str) : Option Redir :=
+  match t with
+  | 'f' :: r =>
+    match splitComma r with
+    | [n, k, p] => do some (.file (← parseOptFd n) (← parseKind k) (← parseNat? p))
+    | _ => none
+  | 'd' :: r =>
+    match splitComma r with
+    | [n, io, src, dash] => do
+      let src ← match src with
+        | ['-'] => some DupSrc.none
+        | 'n' :: m => (parseNat? m).map DupSrc.fd
+        | 'p' :: m => (parseNat? m).map DupSrc.word
+        | _ => none
+      some (.dup (← parseOptFd n) (io = ['i']) src (dash = ['1']))
+    | _ => none
+  | 'e' :: r =>
+    match splitComma r with
+    | [p, a] => do some (.outErr (← parseNat? p) (a = ['1']))
+    | _ => none
+  | 'h' :: r =>
+    match splitComma r with
+    | [n, c] => do some (.here (← parseOptFd n) (unesc c))
+    | _ => none
+  | _ => none
+
+def parseRedirs : Nat → List Str → Option (List Redir × List Str)
+  | 0, ts => some ([], ts)
+  | k + 1, t :: ts => do
+    let r ← parseRedir t
+    let (rs, rest) ← parseRedirs k ts
+    some (r :: rs, rest)
+  | _, [] => none
+
+def counted (ts : List Str) : Option (List Redir × List Str) :=
+  match ts with
+  | k :: rest => do parseRedirs (← parseNat? k) rest
+  | [] => none
+
+mutual
+partial def parseCmd (ts : List Str) : Option (Cmd × List Str) :=
+  match ts with
+  | ['P'] :: tag :: rest => do
+    let (rs, rest) ← counted rest
+    some (.probe (← parseNat? tag) rs, rest)
+  | ['B'] :: tag :: rest => do
+    let (rs, rest) ← counted rest
+    some (.echo (← parseNat? tag) rs, rest)
+  | ['X'] :: rest => do
+    let (rs, rest) ← counted rest
+    some (.exec rs, rest)
+  | ['G'] :: rest => do
+    let (rs, rest) ← counted rest
+    let (b, rest) ← parseBody rest
+    some (.group b rs, rest)
+  | ['U'] :: rest => do
+    let (rs, rest) ← counted rest
+    let (b, rest) ← parseBody rest
+    some (.sub b rs, rest)
+  | ['C'] :: rest => do
+    let (drs, rest) ← counted rest
+    let (rs, rest) ← counted rest
+    let (b, rest) ← parseBody rest
+    some (.call b drs rs, rest)
+  | _ => none
+partial def parseBody (ts : List Str) : Option (Cmds × List Str) :=
+  match ts with
+  | m :: rest => do parseN (← parseNat? m) rest
+  | [] => none
+partial def parseN (n : Nat) (ts : List Str) : Option (Cmds × List Str) :=
+  if n = 0 then some (.nil, ts) else do
+    let (c, rest) ← parseCmd ts
+    let (cs, rest) ← parseN (n - 1) rest
+    some (.cons c cs, rest)
+end
+
+partial def parseScript (ts : List Str) : Option (List Cmd) :=
+  if ts.isEmpty then some [] else do
+    let (c, rest) ← parseCmd ts
+    let cs ← parseScript rest
+    some (c :: cs)
+
+def fileOrder : List (Path × Str) :=
+  [(0, "a".toList), (1, "b".toList), (2, "c".toList), (5, "d".toList), (3, "ex".toList), (4, "ex2".toList)]
+
+def showFiles (s : Sys) : Str :=
+  joinWith [','] (fileOrder.filterMap fun (p, nm) =>
+    match s.fs p with
+    | some (.reg d _) => some (nm ++ ['='] ++ esc d)
+    | some .dir => some (nm ++ "=DIR0".toList)
+    | _ => none)
+
+def dataOf (s : Sys) (p : Path) : Str :=
+  match s.fs p with
+  | some (.reg d _) => d
+  | _ => []
+
+def showSys (s : Sys) : Str :=
+  if s.hazard then "HAZARD".toList else
+  "rc=0 out=".toList ++ esc (dataOf s 8) ++ " err=".toList ++ esc (dataOf s 9) ++
+  " rep=".toList ++ esc (s.rep.flatMap (· ++ ['\n'])) ++ " files=".toList ++ showFiles s ++
+  " notes=".toList ++ (if s.notes.isEmpty then ['-'] else joinWith [','] (s.notes.map natToStr))
+
+def handleR (ts : List Str) : Str :=
+  match ts with
+  | nc :: rest =>
+    match parseScript rest with
+    | none => "bad-script".toList
+    | some cs =>
+      let nc := nc = ['1']
+      let m := (runScript nc cs initP initSys).2
+      let sp := (BrushVerif.FdFlat.runScript nc cs BrushVerif.FdFlat.initT initSys).2
+      "M ".toList ++ showSys m ++ " | S ".toList ++ showSys sp
+  | [] => "bad-request".toList
+
+def handleH (ts : List Str) : Str :=
+  match ts with
+  | [dash, tag, text] =>
+    match BrushVerif.HereDoc.scanDoc (dash = ['1']) (unesc tag) (unesc text) with
+    | none => "unterminated".toList
+    | some (body, rest) =>
+      "ok ".toList ++ (if BrushVerif.HereDoc.requiresExpansion (unesc tag) then ['1'] else ['0']) ++ [' '] ++
+        esc body ++ [' '] ++ esc rest
+  | _ => "bad-request".toList
+
+def handle (toks : List Str) : Str :=
+  match toks with
+  | ['R'] :: rest => handleR rest
+  | ['H'] :: rest => handleH rest
+  | [['E'], body, x] => esc (BrushVerif.HereDoc.expand (unesc x) (unesc body))
+  | _ => "bad-request".toList
 
 end BrushVerif.Drv.C10
